@@ -181,7 +181,9 @@ func c11Check(c *Ctx, m map[string]interface{}, op, path, newName string) (nontr
 			}
 		case "rename":
 			_, sib := sp[newName]
-			if strict && lastPresent && !sib {
+			// a new name that contains path syntax may be refused: the library reads it as a path when
+			// it looks for the sibling, and a clean refusal is all the property asks of a call it declines
+			if strict && lastPresent && !sib && !strings.ContainsAny(newName, ".[") {
 				c.Violate(api, "refused-applicable", shape, cas, nil, detail("path exists through nested maps and the new name is free, yet the call failed"))
 			}
 		}
@@ -367,6 +369,21 @@ func c11Run(c *Ctx) {
 			}
 		}
 	})
+	// new names that look like path syntax, beside siblings literally so named (JSON keys may contain '.' and '[')
+	for _, js := range []string{`{"a":{"k":"v","k.x":"w","ab":"u"},"k":{"x":"t"}}`, `{"a":{"k":"v","ab[0]":"w","ab":["u"]}}`, `{"k":"v","k.x":"w"}`, `{"a":{"k":{"x":"inner"},"ab":"u"}}`} {
+		for _, p := range []string{"a.k", "a.ab", "k"} {
+			for _, nm := range []string{"k.x", "ab[0]", "k.", "x"} {
+				if !c.Mine() {
+					continue
+				}
+				c.S.States++
+				c.S.Evaluations++
+				c11Check(c, fromJSON(js).(map[string]interface{}), "rename", p, nm)
+				c.S.Schedules++
+				c.S.Validated++
+			}
+		}
+	}
 	// values of the named type mxj.Map nested in a Map (a caller may build that): the path functions do not
 	// walk through them, so every operation below one must fail without touching anything
 	typed := []func() map[string]interface{}{
